@@ -388,7 +388,7 @@ def shards(tier, seed):
     out = []
     for i in range(16):
         mine = devs[i::16]
-        out.append(dict(tier=tier, seed=seed * 1000 + i, idx=i, devs=mine, ncases=(150 if tier == "quick" else 500)))
+        out.append(dict(tier=tier, seed=seed * 1000 + i, idx=i, devs=mine, ncases=(150 if tier == "quick" else 4000)))
     return out
 
 
